@@ -132,6 +132,19 @@ LXH("lx_label_sep", ["C18", "C10", "C05", "C04", "C01"], "quick", "<= 2 code poi
     stubs=["WorkTokenizedBuffer::insert_token -> shadow (buf_refines_shadow_insert)", "real token vector mirrors the shadow for iter_token_infos"], contexts=["after_ident"])
 
 
+# ---------------------------------------------------------------------------------------------
+# macro.rs / lexer_mode.rs / numeric.rs leaves
+H("mac_mnemonic_case_and_shape", MAC, ["C16", "C13", "C06"], bound="<= 4 chars, all case flips symbolic", funcs=["is_macro_eval_mnemonic"], stubs=XID, timeout=600, mem=8)
+H("sep_predicate_spec", MAC, ["C18"], cfgs=("macro_sep",), bound="all (previous type or none, token type) pairs", funcs=["needs_macro_sep", "is_macro_stat_tok_type"], timeout=300, mem=6)
+H("mac_resolve_ops_spec", MAC, ["C06"], tier="thorough", bound="ampersand count 1..=255", funcs=["get_macro_resolve_ops_from_amps"], timeout=1800, mem=10)
+H("mac_is_macro_amp_spec", MAC, ["C13", "C06"], bound="<= 5 chars", funcs=["is_macro_amp"], stubs=XID, timeout=300, mem=6)
+H("flags_roundtrip", LMO, ["C13", "C14"], bound="all flag combinations", funcs=["MacroEvalExprFlags::*", "MacroArgNameValueFlags::*"], timeout=300, mem=6)
+H("num_int_spec_n3", NUM, ["C08"], bound="<= 3 ASCII bytes", funcs=["try_parse_decimal (integer mode)", "lexical::parse_partial_with_options::<u64>"], timeout=600, mem=10)
+H("num_int_spec_n5", NUM, ["C08"], tier="thorough", bound="<= 5 ASCII bytes", funcs=["try_parse_decimal (integer mode)"], timeout=3600, mem=16)
+H("num_hex_spec_n3", NUM, ["C08", "C16"], bound="<= 3 ASCII bytes, all case flips symbolic", funcs=["try_parse_hex_integer"], timeout=1200, mem=10)
+H("num_hex_spec_n4", NUM, ["C08", "C16"], tier="thorough", bound="<= 4 ASCII bytes", funcs=["try_parse_hex_integer"], timeout=3600, mem=16)
+
+
 def by_property(pid, tier):
     out = []
     for h in HARNESSES:
